@@ -15,13 +15,14 @@ HARNESS = os.path.join(common.VERIF, 'harness', 'xh_c15.py')
 
 def run(ctx, harness=HARNESS, label='C15'):
     common.check_known_witnesses(ctx)
-    timeout = 200 if ctx.quick else 900
+    timeout = 200 if ctx.quick else 3000
     import shutil
     import tempfile
     scratch = tempfile.mkdtemp(prefix='wcverif_c15_scratch_')
     os.environ['WCVERIF_SCRATCH'] = scratch          # harness trees live here; removed below even if CrossHair is killed on time-out
     try:
-        results = xh.run_all(harness, timeout, ctx.workers)
+        results = xh.run_all(harness, timeout if not ctx.quick else 240, ctx.workers,
+                             only=(lambda n: not n.endswith('_thorough')) if ctx.quick else None)
     finally:
         shutil.rmtree(scratch, ignore_errors=True)
         os.environ.pop('WCVERIF_SCRATCH', None)
